@@ -10,7 +10,10 @@ RULE = ('exhaustive: request strings of the three syntactic classes (one letter,
         'x fault kind at every read position and write position; 0,1,2,23..27,30 empty or blank reads before the reply '
         '(both sides of the retry limit) for command, query and every decoding method; random histories with random '
         'payloads. Non-trivial = a fault or a retry occurred. Distinct by (state, concrete script, calls).')
-TRUSTED = ['harness/ebb3_fake.py: fake serial port, script player (symbolic replies rendered for the pending request)',
+TRUSTED = ['translator/pyio2lean.py (class mode) + lean/Plotink/PyObj.lean: every public method of EBB3/EBBMotionWrap is '
+           'regenerated and run on every history of this module against the real classes (result, escaping exception class, '
+           'bytes written, reads, port, err, version, name, caller, port_name must be identical)',
+           'harness/ebb3_fake.py: fake serial port, script player (symbolic replies rendered for the pending request)',
            'modelled not verified: pyserial; str.strip/startswith/in, int() (differentially tested each run)']
 ASSUMPTIONS = ['request strings are ASCII and non-empty after trimming (the empty request raises IndexError: outside the alphabet)',
                'reply lines are ASCII; a *correct* reply to QS/QC/QE/PI/QL carries decimal integers (QE codes in '
@@ -200,6 +203,7 @@ def oracle(ctx, sc, recs, desc):
 
 def run(ctx):
     rng = ctx.rng
+    ctx.gen_stream = True        # also run the source-regenerated methods (ebb3gen) on every history: must be identical
     if getattr(ctx, 'replay', None):
         data = json.load(open(ctx.replay))
         items = [v['input'] for v in data.get('violations', [])] + [d['input'] for d in data.get('model_vs_implementation', [])]
